@@ -2590,13 +2590,13 @@ theorem enterClass_ok {proj : Project} {rank : List Nat} (wf : WFacts proj rank)
       | none => simp [hxe] at hx
       | some p =>
         simp only [hxe] at hx
-        cases hof : Names.findObject (envOf s) p with
-        | obj o =>
+        cases hof : Names.objFor (envOf s) p with
+        | none => simp [hof] at hx
+        | some o =>
           simp only [hof] at hx
           by_cases hcl : isClassObj s.reg o = true
           · simp only [hcl, if_true, Option.some.injEq] at hx; subst hx; exact hcl
           · simp [hcl] at hx
-        | _ => simp [hof] at hx
   have hcb2 : CBase { addObj s .cls n ctx with cinfo := ci } := by
     intro e hm b hbm
     rcases hci e hm with hold | hnewc
